@@ -3,7 +3,7 @@
 From Coq Require Import ZArith List Bool Arith.
 From Cspuz Require Import Lib.PyErr Core.Expr Core.Program Core.Build
   Graph.GraphModel Graph.ReachProofs Graph.Avc Graph.AvcProofs
-  Graph.NotAdj Graph.NotAdjForest Graph.NotAdjDiag Graph.NotAdjBounded Graph.NotAdjSem Graph.NotAdjMain
+  Graph.NotAdj Graph.NotAdjForest Graph.NotAdjDiag Graph.NotAdjBounded Graph.NotAdjBoundedIndep Graph.NotAdjSem Graph.NotAdjMain
   Graph.NotAdjCompose.
 Import ListNotations.
 Local Open Scope nat_scope.
@@ -86,14 +86,14 @@ Theorem spec_diag_b_decides : forall h w act, spec_diag_b h w act = true <-> spe
 Proof. exact NotAdjDiag.spec_diag_b_spec. Qed.
 Print Assumptions spec_diag_b_decides.
 
-(* bounded: on independent patterns of grids with h, w >= 2 and h*w <= 12 the
+(* bounded: on independent patterns of grids with h, w >= 2 and h*w <= 16 the
    diagonal forest condition is "the inactive cells are connected" (kernel
-   computation over all patterns of all such shapes).  The unbounded statement
+   computation over all independent patterns of all such shapes).  The unbounded statement
    NotAdj.diag_equiv_statement is NOT proved. *)
-Theorem diag_equiv_bounded : forall h w act, 2 <= h -> 2 <= w -> h * w <= 12 ->
+Theorem diag_equiv_bounded : forall h w act, 2 <= h -> 2 <= w -> h * w <= 16 ->
   independent (grid_graph h w) act ->
   (spec_diag h w act <-> connected (grid_graph h w) (inactive act)).
-Proof. exact NotAdjBounded.diag_equiv_12. Qed.
+Proof. exact NotAdjBoundedIndep.diag_equiv_16. Qed.
 Print Assumptions diag_equiv_bounded.
 
 (* grid form, h, w >= 2, every size: completable exactly when independent and
@@ -110,9 +110,9 @@ Theorem not_segmenting_grid_diag_exact : forall cfg st h w l en,
 Proof. exact NotAdjCompose.not_segmenting_grid_diag_exact. Qed.
 Print Assumptions not_segmenting_grid_diag_exact.
 
-(* grid form, h, w >= 2, h*w <= 12: exactly the graph definition *)
+(* grid form, h, w >= 2, h*w <= 16: exactly the graph definition *)
 Theorem not_segmenting_grid_exact_bounded : forall cfg st h w l en,
-  2 <= h -> 2 <= w -> h * w <= 12 ->
+  2 <= h -> 2 <= w -> h * w <= 16 ->
   length l = h * w -> (forall a, In a l -> is_boolexpr a = true) ->
   fresh_below (next_id st) l -> acts_defined en l ->
   exists st',
@@ -155,7 +155,7 @@ Print Assumptions not_segmenting_line_exact.
    the corresponding grid graph: single rows / columns of any length, other
    shapes up to the kernel-checked bound *)
 Theorem grid_form_matches_graph_form_bounded : forall st h w l en stg stx,
-  1 <= h -> 1 <= w -> (h = 1 \/ w = 1 \/ h * w <= 12) ->
+  1 <= h -> 1 <= w -> (h = 1 \/ w = 1 \/ h * w <= 16) ->
   length l = h * w -> (forall a, In a l -> is_boolexpr a = true) ->
   fresh_below (next_id st) l -> acts_defined en l ->
   post_not_segmenting false st (AArr2 h w l) None = (stg, None) ->
